@@ -349,6 +349,13 @@ def run_driver(driver, module, cases, wd, tag="run", shards=None, timeout=900, e
         if c["id"] not in results:
             raise Inconclusive("driver produced no result for case %s" % c["id"])
         out.append(results[c["id"]])
+    # a case the harness itself could not carry through (the system did not settle in time on a loaded machine, ...)
+    # is run once more on its own, with the machine less crowded by the sibling shards
+    redo = [c for c, r in zip(cases, out) if r.get("harness_err")]
+    if redo and not tag.endswith("-redo") and len(redo) <= max(8, len(cases) // 20):
+        again = run_driver(driver, module, redo, wd, tag=tag + "-redo", shards=min(2, len(redo)), timeout=timeout // max(1, TSCALE), env=env)
+        byid = {r["id"]: r for r in again}
+        out = [byid.get(r["id"], r) if r.get("harness_err") else r for r in out]
     return out
 
 
